@@ -185,7 +185,7 @@ def _segs_match(have, want):
 # path context: solver, decisions, naming
 
 class PathCtx:
-    def __init__(self, prefix, stats, timeout_ms=20000):
+    def __init__(self, prefix, stats, timeout_ms=8000):
         self.prefix = list(prefix)
         self.pos = 0
         self.decisions = []
@@ -233,8 +233,10 @@ class PathCtx:
         self.stats['solver_s'] += time.time() - t
         self.stats['queries'] += 1
         if r == z3.unknown:
+            # undecided feasibility: keep the side (over-approximation of the path set; a spurious path can only
+            # yield a counterexample that the native replay then rejects, never hide a violation)
             self.stats['unknown'] += 1
-            raise Inconclusive('solver returned unknown on a branch feasibility query')
+            return True
         return r == z3.sat
 
     def branch(self, cond):
